@@ -326,7 +326,10 @@ def no_swallow(u: Unit):
                     jumps = []
                     for st_ in n.finalbody:
                         loops = [a for a in ast.walk(st_) if isinstance(a, (ast.For, ast.While))]
+                        inner_defs = {id(x) for a in ast.walk(st_) if isinstance(a, (ast.FunctionDef, ast.AsyncFunctionDef, ast.Lambda)) for x in ast.walk(a) if x is not a}
                         for m in ast.walk(st_):
+                            if id(m) in inner_defs:
+                                continue              # (a return inside a function DEFINED in the finally block does not leave the block)
                             if isinstance(m, ast.Return) or (isinstance(m, (ast.Break, ast.Continue)) and not any(m in list(ast.walk(a)) for a in loops)):
                                 jumps.append((type(m).__name__.lower(), m.lineno))
                     u.functions.setdefault(fn.qualname, {"sha": fn.sha, "file_sha": mi.sha, "paths": 0, "obligations": 0, "role": "under contract"})
